@@ -11,6 +11,7 @@ RULE = ("kinds: step (real integrator on y'=lambda*y / damped 2x2 blocks with th
         "closed left half-plane incl. the imaginary axis; no eigenvalue of A with Re<=0 other than 0); non-trivial = step accepted; distinct by "
         "(method, |z| decade, arg class, sign of h, dtype)")
 ASSUMPTIONS = ["tolerances are scaled to 1e3*eps*max(1,|lambda|) so that the Newton iteration can converge; comparisons allow K=50 times the induced error h*tol*sum|b|"]
+RULE += " Strata added in the fourth seeding round: Steps handed back by the library's own controller after rejected attempts (requested direction of time, R(z) of the accepted step)."
 FLOORS = {"quick": {"accepted_steps": 300, "accepted_steps_z_ge_1e4": 60, "tableau_points": 2000, "usertol_steps_h_ge_1e3": 40, "chained_steps": 150, "own_controller_steps": 60, "own_controller_steps_after_a_rejected_attempt": 12},
           "thorough": {"accepted_steps": 3000, "accepted_steps_z_ge_1e4": 500, "tableau_points": 20000, "usertol_steps_h_ge_1e3": 400, "chained_steps": 150, "own_controller_steps": 400, "own_controller_steps_after_a_rejected_attempt": 80}}
 K = 5.0
